@@ -105,6 +105,11 @@ fn content_tx(col: u8, kind: u8) -> Tx {
 	}
 }
 
+/// tree columns: a second tree naming a leaf of the first (that leaf's count lives in the column's ref-count table)
+fn content_tx2(col: u8) -> Tx {
+	vec![(col, Op::InsertTree(rk(20 + col as u32), NodeSpec { data: B::pat(7, 4), children: vec![ChildSpec::Existing(rk(10 + col as u32), vec![0])] }))]
+}
+
 /// valid single-field variations of a column's options (for the mismatch test)
 fn variations(c: &ColSpec) -> Vec<ColSpec> {
 	let mut v = vec![];
@@ -145,10 +150,11 @@ struct Case {
 
 fn build(dir: &Path, layout: &[u8], pending_logs: bool) -> Result<(Config, crate::model::Model, std::sync::Arc<Vec<Vec<Vec<u8>>>>), Fail> {
 	let cfg = Config::new(layout.iter().map(|k| kind_spec(*k)).collect());
-	let txs: Vec<Tx> = layout.iter().enumerate().map(|(i, k)| content_tx(i as u8, *k)).collect();
+	let mut txs: Vec<Tx> = layout.iter().enumerate().map(|(i, k)| content_tx(i as u8, *k)).collect();
+	txs.extend(layout.iter().enumerate().filter(|(_, k)| **k == 3).map(|(i, _)| content_tx2(i as u8)));
 	let mut probe = vec![];
 	for c in 0..4u8 {
-		for t in [content_tx(c, 0), content_tx(c, 2), content_tx(c, 3)] {
+		for t in [content_tx(c, 0), content_tx(c, 2), content_tx(c, 3), content_tx2(c)] {
 			for (_, op) in t {
 				probe.push((c, op.key().clone()));
 			}
@@ -157,8 +163,17 @@ fn build(dir: &Path, layout: &[u8], pending_logs: bool) -> Result<(Config, crate
 	let probe: Vec<(u8, B)> = probe.into_iter().filter(|(c, _)| (*c as usize) < layout.len()).collect();
 	let universe = universe_of(&cfg, &txs, &probe);
 	let mut ex = Exec::new(dir, &cfg, universe.clone())?;
-	for tx in txs.iter() {
-		ex.commit(tx)?;
+	if pending_logs && !txs.is_empty() {
+		// one commit goes all the way first: its cleaned log file stays behind, empty, as after any longer run
+		ex.commit(&txs[0])?;
+		ex.drain()?;
+		for tx in txs.iter().skip(1) {
+			ex.commit(tx)?;
+		}
+	} else {
+		for tx in txs.iter() {
+			ex.commit(tx)?;
+		}
 	}
 	if pending_logs {
 		// logged and synced, not applied: the directory as a crash would leave it
@@ -272,14 +287,28 @@ fn run_case(case: &Case) -> Result<(), Fail> {
 			mcols[*i as usize] = empty_col(cols[*i as usize].kind());
 		},
 	}
+	// no file of a dropped / reset / cleared column is left behind (table, index and ref-count files carry the column id)
+	let gone: Option<u8> = match &case.op {
+		Admin::DropLast => Some(cfg.cols.len() as u8 - 1),
+		Admin::Reset(i, _) | Admin::Clear(i) => Some(*i),
+		_ => None,
+	};
+	if let Some(ci) = gone {
+		let tag = format!("_{:02}_", ci);
+		let left: Vec<String> = listing(&dir).keys().filter(|n| n.contains(&tag)).cloned().collect();
+		if !left.is_empty() {
+			return Err(Fail::new("mismatch", format!("files of column {} survive the call: {:?}", ci, left)))
+		}
+	}
 	if opts.columns.len() != cols.len() {
 		return Err(Fail::new("mismatch", format!("options hold {} columns after the call, expected {}", opts.columns.len(), cols.len())))
 	}
 	let cfg2 = Config { cols: cols.clone(), ..cfg.clone() };
-	let txs: Vec<Tx> = cols.iter().enumerate().map(|(i, c)| content_tx(i as u8, if c.multitree { 3 } else if c.ref_counted { 2 } else if c.btree { 1 } else { 0 })).collect();
+	let mut txs: Vec<Tx> = cols.iter().enumerate().map(|(i, c)| content_tx(i as u8, if c.multitree { 3 } else if c.ref_counted { 2 } else if c.btree { 1 } else { 0 })).collect();
+	txs.extend(cols.iter().enumerate().filter(|(_, c)| c.multitree).map(|(i, _)| content_tx2(i as u8)));
 	let mut probe = vec![];
 	for c in 0..cols.len() as u8 {
-		for t in [content_tx(c, 0), content_tx(c, 2), content_tx(c, 3)] {
+		for t in [content_tx(c, 0), content_tx(c, 2), content_tx(c, 3), content_tx2(c)] {
 			for (_, op) in t {
 				probe.push((c, op.key().clone()));
 			}
@@ -302,6 +331,20 @@ fn run_case(case: &Case) -> Result<(), Fail> {
 		ex.drain()?;
 		ex.check()?;
 		ex.apply(&Ev::Reopen)?;
+		ex.check()?;
+		// tree columns: dropping every tree again empties the column (a stale reference count would keep a node)
+		for (ci, c) in cols.iter().enumerate() {
+			if c.multitree {
+				let roots: Vec<Vec<u8>> = match &ex.model.cols[ci] {
+					crate::model::ColModel::Tree(t) => t.roots.keys().cloned().collect(),
+					_ => vec![],
+				};
+				for r in roots {
+					ex.commit(&vec![(ci as u8, Op::DerefTree(B::Hex(r)))])?;
+					ex.drain()?;
+				}
+			}
+		}
 		ex.check()
 	})();
 	match &r {
